@@ -1060,7 +1060,7 @@ def rule_G(ctx):
             got = t.call('operate', text)
         except orders.Unsupported as ex:
             raise shape_error('Track.operate(%r) not interpretable: %s' % (text, ex), fo.loc())
-        except (ZeroDivisionError, IndexError, KeyError, TypeError, AttributeError, ValueError, OverflowError, orders.Raised, RecursionError) as ex:
+        except orders.PROGRAM_ERRORS as ex:
             found.setdefault((family, 'fails'), ('the expression is evaluated', {'expression': text, 'exception': '%s: %s' % (type(ex).__name__, str(ex)[:160]), 'expected': [None if isn(v) else v for v in want]}))
             return
         after = snapshot(t)
@@ -1077,7 +1077,7 @@ def rule_G(ctx):
                     got2 = t2.call('__getitem__', text)
                 except orders.Unsupported as ex:
                     raise shape_error('Track[%r] not interpretable: %s' % (text, ex), fo.loc())
-                except (ZeroDivisionError, IndexError, KeyError, TypeError, AttributeError, ValueError, OverflowError, orders.Raised, RecursionError) as ex:
+                except orders.PROGRAM_ERRORS as ex:
                     got2 = '%s: %s' % (type(ex).__name__, str(ex)[:160])
                 if not same_list(got2, want):
                     found.setdefault(('bracket form', 'value'), ('track[expression] returns the value of the expression, as track.operate(expression) does',
@@ -1176,7 +1176,7 @@ def rule_G(ctx):
                 got = t.call('getAnalyticalFeature', 'out')
             except orders.Unsupported as ex:
                 raise shape_error('operate(Operator.%s) not interpretable: %s' % (nm, ex), fo.loc())
-            except (ZeroDivisionError, IndexError, KeyError, TypeError, AttributeError, ValueError, OverflowError, orders.Raised) as ex:
+            except orders.PROGRAM_ERRORS as ex:
                 got = '%s: %s' % (type(ex).__name__, ex)
             if not same_list(got, want):
                 found.setdefault(('operator objects', nm), ('applying the operator object directly gives the values of the expression',
@@ -1197,7 +1197,7 @@ def rule_G(ctx):
                 got = t.call('getAnalyticalFeature', 'out')
             except orders.Unsupported as ex:
                 raise shape_error('operate(Operator.%s) not interpretable: %s' % (nm, ex), fo.loc())
-            except (ZeroDivisionError, IndexError, KeyError, TypeError, AttributeError, ValueError, OverflowError, orders.Raised) as ex:
+            except orders.PROGRAM_ERRORS as ex:
                 got = '%s: %s' % (type(ex).__name__, ex)
             if not same_list(got, want):
                 found.setdefault(('operator objects', nm), ('applying the operator object directly gives the values of the expression',
@@ -1253,7 +1253,7 @@ def rule_G(ctx):
                                                                     dict(bad, piece='observations 1 ... %d' % (N - 2))))
             except orders.Unsupported as ex:
                 raise shape_error('expressions on an extracted piece not interpretable: %s' % ex, fo.loc())
-            except (ZeroDivisionError, IndexError, KeyError, TypeError, AttributeError, ValueError, OverflowError, orders.Raised, RecursionError) as ex:
+            except orders.PROGRAM_ERRORS as ex:
                 found.setdefault(('derived tracks', 'fails'), ('expressions on a piece cut out of a track are evaluated', {'history': hist, 'exception': '%s: %s' % (type(ex).__name__, str(ex)[:160])}))
     for (family, key), (desc, wit) in sorted(found.items()):
         ctx.violation('C02.G', fo, '%s: %s' % (family, desc), wit, node=fo.node, key='%s:%s' % (family, key))
